@@ -145,7 +145,7 @@ def ref_type(pos, target):
     raise ValueError(pos)
 
 
-def build_program(rng, n, edges, renamed=()):
+def build_program(rng, n, edges, renamed=(), const_alias=False):
     """n items T0..T{n-1}; edges: (i, j, position) = Ti refers to Tj at that position; plus a generic `Wrap<T>`"""
     names = ["T%d" % i for i in range(n)]
     kinds = []
@@ -185,6 +185,10 @@ def build_program(rng, n, edges, renamed=()):
             items.append({"kind": "struct", "attrs": attrs, "ident": names[i], "generics": [], "fields": ("named", fs)})
     items.append({"kind": "struct", "attrs": list(ts), "ident": "Wrap", "generics": [("ty", "T")],
                   "fields": ("named", [field([], "inner", t_path("T"))])})
+    if const_alias:
+        # a const whose declared type is a same-file alias (consts are emitted by TypeScript, Go and Python only)
+        items.append({"kind": "alias", "attrs": list(ts), "ident": "NumAlias", "generics": [], "ty": t_path("u32")})
+        items.append({"kind": "const", "attrs": list(ts), "ident": "LIMIT_X", "ty": t_path("NumAlias"), "expr_text": "7", "init": ("i", 7, "")})
     rng.shuffle(items)
     return {"attrs": [], "items": items, "kinds": kinds}, names
 
@@ -237,7 +241,9 @@ def order_part(check):
                     keep = rng.choice(mine)
                     edges = [e for e in edges if e[0] != i] + [(i, keep[1], rng.choice(["alias-target", "alias-vec"]))]
         renamed = [i for i in range(n) if rng.random() < 0.1]
-        f, names = build_program(rng, n, edges, renamed)
+        const_alias = rng.random() < 0.3
+        f, names = build_program(rng, n, edges, renamed, const_alias=const_alias)
+        f["const_alias"] = const_alias
         g = Gen(rng)
         for lang in ORDER_LANGS:
             cfg = {"package": "proto" if lang == "go" else "com.example", "type_mappings": {}}
@@ -264,6 +270,14 @@ def order_part(check):
                         return cand
                 return None
             problem = None
+            if "LIMIT_X" in out and "NumAlias" in out:
+                ca = re.search(r"^(?:export const LIMIT_X|const LimitX|LIMIT_X\b)", out, re.M) or re.search(r"LIMIT_X|LimitX", out)
+                aa = re.search(r"^(?:export type NumAlias|type NumAlias|NumAlias =)", out, re.M)
+                check.count("order-const-with-alias-type-" + lang)
+                if ca and aa and ca.start() < aa.start():
+                    check.violation("%s definition order: the const LIMIT_X (type NumAlias) precedes the alias NumAlias it refers to" % lang,
+                                    case={"lang": lang, "source": text}, impl=out, model=ma.get("ok"), failing_input=True)
+                    return
             missing = [i for i in range(n) if defname(i) is None]
             if missing:
                 problem = ("definition missing", missing)
